@@ -151,6 +151,7 @@ impl<'a> Evaluator<'a> {
                 match self.ksf_kind {
                     "test" => crate::tksf::test_ksf_eval(inst, &x),
                     "identity" => x,
+                    "zst" => crate::tksf::test_ksf_eval(crate::tksf::ZST_INST, &x),
                     "argon2" => {
                         let a = crate::suites::mk_argon_pub(inst);
                         let mut out = vec![0u8; x.len()];
